@@ -107,6 +107,17 @@ def write_case(case, d):
     out.append('[Materials]')
     for name, m in case.get('materials', {}).items():
         out.append(f'    [[{name}]]')
+        if '_table' in m:
+            # a table of properties over temperature (0 = no entry)
+            tb = m['_table']
+            cols = [c for c in tb if c != 'temperature']
+            with open(os.path.join(d, f'{name}.csv'), 'w') as f:
+                f.write(','.join(['temperature'] + cols) + '\n')
+                for i, T in enumerate(tb['temperature']):
+                    f.write(','.join([repr(float(T))] + [
+                        repr(float(tb[c][i])) for c in cols]) + '\n')
+            out.append(f'        from_file = {name}.csv')
+            continue
         for k, v in m.items():
             out.append(f'        {k} = {_fmt(v)}')
     # ---- power
